@@ -35,6 +35,12 @@ SPEC = {
 }
 
 MUTATIONS = """
+Round-2 seed /tmp/seedout2/C22/patch.diff (BUILD file test `mode.IsRegular()`): exit 1 -- extractor: walk callback shape unreadable,
+ Expected facts + thorough correspondence: 21 disagreements, oracle VIOLATION unexplained with input
+ `a/BUILD -> symlink to a file, b/BUILD regular`: FindAllBuildFiles=["b/BUILD"] specified=["a/BUILD" "b/BUILD"].
+ The generator now makes 14% of BUILD entries symlinks to a regular file (plus the exhaustive family and a corpus regression);
+ the model yields a BUILD-named entry of ANY non-directory kind (regular file, symlink to a file or to a directory).
+
 After the fix commits (facts must be propositionally equivalent to Facts.repaired):
  R1 re-introduce `strings.HasPrefix(name, dir)` in the blacklist loop     -> exit 1: C22_facts_ok fails (blCond no longer equivalent
     to Facts.repaired), oracle VIOLATION blacklist-string-prefix with input `blacklist out, output/BUILD` (class no longer known)
